@@ -94,7 +94,7 @@ func parent(r *vlib.Run) {
 	r.Require("replies_tcp", 50*nScripts)
 	r.Require("servfails", 20*nScripts)
 	r.Require("rcode/NOERROR", 20*nScripts)
-	r.Require("deadline_servfails", nScripts)      // replies produced by the query timeout itself
+	r.Require("deadline_servfails", nScripts/2)    // SERVFAIL produced by the query timeout itself (at ≥ querytimeout-0.1 s, or labelled "Query timeout exceeded")
 	r.Require("followers_observed", 4*nScripts)     // dedup leader/follower cohorts
 	r.Require("closers_udp", 2*nScripts)
 	r.Require("closers_tcp", 2*nScripts)
@@ -110,13 +110,13 @@ func parent(r *vlib.Run) {
 	r.Require("tc_then_tcp_fallbacks", 20)           // upstream TC=1 followed by the resolver's TCP retry
 	r.Require("upstream/udp/drop", 50)
 	r.Require("upstream/udp/delay-long", 20)
-	r.Require("upstream/udp/malformed", 10)
-	r.Require("upstream/udp/wrong-id", 10)
-	r.Require("upstream/udp/wrong-question", 10)
-	r.Require("upstream/udp/servfail", 10)
-	r.Require("upstream/udp/refused", 10)
+	r.Require("upstream/udp/malformed", 5)
+	r.Require("upstream/udp/wrong-id", 5)
+	r.Require("upstream/udp/wrong-question", 5)
+	r.Require("upstream/udp/servfail", 3)
+	r.Require("upstream/udp/refused", 3)
 	r.Require("upstream/tcp/tcp-stall", 3)
-	r.Require("upstream/tcp/tcp-reset", 3)
+	r.Require("upstream/tcp/tcp-reset", 2)
 	r.Require("pattern/control", 40*nScripts)        // the always-answerable control client ran beside every script
 	r.Require("junk_counted_by_server", 4)
 	r.Require("quiescence_reached", nScripts)
